@@ -401,8 +401,7 @@ Record qfile := {
 Definition has_cons (ck : ckind) : bool := match ck with CN | CB => false | _ => true end.
 
 (* QplibFile::from_lines *)
-Definition read_file : M qfile :=
-  dom name <- next_parse p_str;
+Definition read_body (name : string) : M qfile :=
   dom pt <- next_parse p_ptype;
   let '(ok, vk, ck) := pt in
   dom sense <- next_parse p_sense;
@@ -441,6 +440,10 @@ Definition read_file : M qfile :=
          f_q0 := q0; f_b0 := b0; f_q0c := q0c; f_qs := qs; f_bs := bs;
          f_cl := cl; f_cu := cu; f_lb := lb; f_ub := ub; f_inf := inf; f_b0d := b0d;
          f_vnames := vnames; f_cnames := cnames |}.
+
+Definition read_file : M qfile :=
+  (* the name: only the first word of the first content line *)
+  dom name <- next_parse p_str; read_body name.
 
 Definition from_lines (ls : list string) : res qfile :=
   match read_file (ls, 0%nat) with Ok (f, _) => Ok f | Err l k => Err l k end.
